@@ -9,10 +9,14 @@
   (falsy ⇒ ignored by the code; outside the property), an absolute month is a month, the weekday is
   0..6 — and `x.Valid`: any date / naive / aware datetime of years 1..9999.
 
-  Known finding D-C03-yearday366 (not about `__add__` but about the constructor's yearday table):
-  the full statement would be
+  Repaired D-C03-yearday366 (the constructor's yearday table, not `__add__`): the full statement
       ∀ y ∈ 1..9999, n ∈ 1..(365|366): date(y,·,·) + relativedelta(yearday=n) = day n of year y
-  which fails exactly for n = 366 in leap years (model witness below, `yearday366_witness`).
+  used to fail for n = 366 in leap years (leapdays = −1 applied after the clip to Dec 31 ⇒ Dec 30).  The
+  constructor now sets leapdays = −1 only for 59 < yearday < 366 and `yearday_spec` is proved at full
+  strength; `yearday366_nonleap_clips` states what yearday=366 gives in a non-leap year (Dec 31, clipped).
+  The model no longer contains the old code, so the former `yearday366_defect*` theorems were deleted
+  (the regression is guarded by the harness stream `yearday_366` and by `yearday_spec` itself: restoring
+  `if yearday > 59` breaks `gen_initKw_eq_mk`).
 -/
 import DateutilVerif.Proofs.RDApply
 import DateutilVerif.Proofs.RDYearday
@@ -169,41 +173,83 @@ theorem errors_only_out_of_range (d : RD) (x : Temporal) (hd : InDomain d) (hx :
           · contradiction
 
 
-/-- **yearday_spec_partial.** `x + relativedelta(yearday=y)` is day `y` of `x`'s year (Feb 29 counted), for
-    every `y ∈ 1..365` and every valid operand of any year: same kind, same time of day, same year,
-    ordinal = Jan 1 + (y − 1).
-    FULL STATEMENT (not provable — known finding D-C03-yearday366): the same for `1 ≤ y ≤ daysInYear Y`,
-    i.e. also `y = 366` in leap years; the excluded class is exactly `y = 366 ∧ leap Y`, and
-    `yearday366_defect` below proves the negation for EVERY leap year. -/
-theorem yearday_spec_partial (y : Int) (x : Temporal) (hx : x.Valid) (h1 : 1 ≤ y) (h2 : y ≤ 365) :
+/-- **yearday_spec (full strength).** `x + relativedelta(yearday=y)` is day `y` of `x`'s year (Feb 29 counted), for
+    every `y ∈ 1..daysInYear Y` — `y = 366` in leap years included — and every valid operand of any year 1..9999:
+    same kind, same time of day, same year, ordinal = Jan 1 + (y − 1). -/
+theorem yearday_spec (y : Int) (x : Temporal) (hx : x.Valid) (h1 : 1 ≤ y) (h2 : y ≤ Cal.daysInYear x.t.y) :
     ∃ d res, mk { yearday := some y } = .ok d ∧ applyTo d x = .ok res ∧
       res.kind = x.kind ∧ res.t.Valid ∧ res.t.y = x.t.y ∧
       res.t.ordinal = Cal.toOrdinal x.t.y 1 1 + (y - 1) ∧
       res.t.hh = x.t.hh ∧ res.t.mm = x.t.mm ∧ res.t.ss = x.t.ss ∧ res.t.us = x.t.us := by
-  obtain ⟨m, dd, hl, m1, m12, d1, d2, hsum, hiff⟩ := ydayLookup_spec y h1 h2
-  have hmk := mk_yearday y m dd (by omega) hl
+  have hinyear : ∀ res : Temporal, res.t.Valid → res.t.ordinal = Cal.toOrdinal x.t.y 1 1 + (y - 1) → res.t.y = x.t.y := by
+    intro res hv hord'
+    exact year_of_ordinal_in_year res.t x.t.y hv (by rw [hord']; omega) (by
+      rw [hord']
+      have hs := Cal.daysBeforeYear_succ x.t.y
+      have e1 := Cal.daysBeforeMonth_1 x.t.y
+      have e2 := Cal.daysBeforeMonth_1 (x.t.y + 1)
+      unfold Cal.toOrdinal
+      rw [e1, e2, hs]
+      unfold Cal.daysInYear at h2 ⊢; split at h2 <;> simp_all <;> omega)
+  by_cases h365 : y ≤ 365
+  · obtain ⟨m, dd, hl, m1, m12, d1, d2, hsum, hiff⟩ := ydayLookup_spec y h1 h365
+    have hmk := mk_yearday y m dd (by omega) hl
+    obtain ⟨res, ha, hk, hv, hord, t1, t2, t3, t4⟩ :=
+      applyTo_mdl m dd (if 59 < y ∧ y < 366 then -1 else 0) x hx ⟨m1, m12⟩ d1 (by split <;> simp)
+    have hle := nlDim_le x.t.y m
+    have hmin : min dd (Cal.daysInMonth x.t.y m) = dd := by omega
+    rw [hmin] at hord
+    have hord' : res.t.ordinal = Cal.toOrdinal x.t.y 1 1 + (y - 1) := by
+      rw [hord]
+      have e1 : Cal.dbmTable 1 = 0 := by decide
+      unfold Cal.toOrdinal Cal.daysBeforeMonth
+      rw [e1]
+      generalize Cal.dbmTable m = T at *
+      generalize Cal.daysBeforeYear x.t.y = B at *
+      cases hl : Cal.isLeap x.t.y <;> simp <;> (repeat' split) <;> omega
+    exact ⟨_, res, hmk, ha, hk, hv, hinyear res hv hord', hord', t1, t2, t3, t4⟩
+  · -- y = 366, hence a leap year: month=12, day=32, NO leap-day correction; the day clips to Dec 31 = day 366
+    have hleap : Cal.isLeap x.t.y = true := by
+      unfold Cal.daysInYear at h2; split at h2
+      · assumption
+      · omega
+    have hy : y = 366 := by unfold Cal.daysInYear at h2; rw [if_pos hleap] at h2; omega
+    subst hy
+    have hmk : mk { yearday := some 366 } = .ok (mdl 12 32 0) :=
+      mk_yearday 366 12 32 (by decide) (by decide)
+    obtain ⟨res, ha, hk, hv, hord, t1, t2, t3, t4⟩ :=
+      applyTo_mdl 12 32 0 x hx (by decide) (by decide) (Or.inl rfl)
+    have hd : Cal.daysInMonth x.t.y 12 = 31 := by unfold Cal.daysInMonth; simp
+    have hord' : res.t.ordinal = Cal.toOrdinal x.t.y 1 1 + (366 - 1) := by
+      rw [hord, hd]
+      have e1 : Cal.dbmTable 1 = 0 := by decide
+      have e12 : Cal.dbmTable 12 = 334 := by decide
+      unfold Cal.toOrdinal Cal.daysBeforeMonth
+      rw [e1, e12, hleap]
+      simp
+      omega
+    exact ⟨_, res, hmk, ha, hk, hv, hinyear res hv hord', hord', t1, t2, t3, t4⟩
+
+/-- **yearday366_nonleap_clips.** What `yearday=366` gives in a NON-leap year (which has no day 366; the
+    documentation is silent): the constructor stores month=12, day=32 and `__add__` clips the day to the end of
+    the month, so the result is December 31 = day 365 of that year — the same clipping as `day=31` in a 30-day
+    month and as `nlyearday=366`; kind and time of day unchanged. -/
+theorem yearday366_nonleap_clips (x : Temporal) (hx : x.Valid) (hl : Cal.isLeap x.t.y = false) :
+    ∃ d res, mk { yearday := some 366 } = .ok d ∧ applyTo d x = .ok res ∧
+      res.kind = x.kind ∧ res.t.Valid ∧ res.t.y = x.t.y ∧ res.t.m = 12 ∧ res.t.d = 31 ∧
+      res.t.hh = x.t.hh ∧ res.t.mm = x.t.mm ∧ res.t.ss = x.t.ss ∧ res.t.us = x.t.us := by
+  have hmk : mk { yearday := some 366 } = .ok (mdl 12 32 0) :=
+    mk_yearday 366 12 32 (by decide) (by decide)
   obtain ⟨res, ha, hk, hv, hord, t1, t2, t3, t4⟩ :=
-    applyTo_mdl m dd (if y > 59 then -1 else 0) x hx ⟨m1, m12⟩ d1 (by split <;> simp)
-  have hle := nlDim_le x.t.y m
-  have hmin : min dd (Cal.daysInMonth x.t.y m) = dd := by omega
-  rw [hmin] at hord
-  have hord' : res.t.ordinal = Cal.toOrdinal x.t.y 1 1 + (y - 1) := by
-    rw [hord]
-    have e1 : Cal.dbmTable 1 = 0 := by decide
-    unfold Cal.toOrdinal Cal.daysBeforeMonth
-    rw [e1]
-    generalize Cal.dbmTable m = T at *
-    generalize Cal.daysBeforeYear x.t.y = B at *
-    cases hl : Cal.isLeap x.t.y <;> simp <;> (repeat' split) <;> omega
-  refine ⟨_, res, hmk, ha, hk, hv, ?_, hord', t1, t2, t3, t4⟩
-  exact year_of_ordinal_in_year res.t x.t.y hv (by rw [hord']; omega) (by
-    rw [hord']
-    have hs := Cal.daysBeforeYear_succ x.t.y
-    have e1 := Cal.daysBeforeMonth_1 x.t.y
-    have e2 := Cal.daysBeforeMonth_1 (x.t.y + 1)
-    unfold Cal.toOrdinal
-    rw [e1, e2, hs]
-    unfold Cal.daysInYear; split <;> omega)
+    applyTo_mdl 12 32 0 x hx (by decide) (by decide) (Or.inl rfl)
+  have hd : Cal.daysInMonth x.t.y 12 = 31 := by unfold Cal.daysInMonth; simp
+  rw [hd] at hord
+  simp only [ne_eq, not_true_eq_false, false_and, ↓reduceIte, Int.add_zero] at hord
+  have h31 : min (32 : Int) 31 = 31 := by decide
+  rw [h31] at hord
+  have hinj := Cal.toOrdinal_inj res.t.y res.t.m res.t.d x.t.y 12 31 hv.1.2.2
+    ⟨by decide, by decide, by decide, by rw [hd]; decide⟩ hord
+  exact ⟨_, res, hmk, ha, hk, hv, hinj.1, hinj.2.1, hinj.2.2, t1, t2, t3, t4⟩
 
 /-- **nlyearday_spec.** `x + relativedelta(nlyearday=n)`, `n ∈ 1..365`: the month and day that are day `n`
     of a NON-leap year (Feb 29 is jumped), in `x`'s year — for leap and non-leap years alike.
@@ -231,26 +277,6 @@ theorem nlyearday_spec (n : Int) (x : Temporal) (hx : x.Valid) (h1 : 1 ≤ n) (h
   generalize Cal.dbmTable m = T at *
   generalize Cal.daysBeforeYear x.t.y = B at *
   cases hl : Cal.isLeap x.t.y <;> simp <;> (repeat' split) <;> omega
-
-/-- **yearday366_defect (the negation of the full yearday statement on the excluded class).** In EVERY leap
-    year, `x + relativedelta(yearday=366)` is day 365 (Dec 30), not day 366: the day is clipped to 31
-    before `leapdays = −1` is applied. -/
-theorem yearday366_defect (x : Temporal) (hx : x.Valid) (hl : Cal.isLeap x.t.y = true) :
-    ∃ d res, mk { yearday := some 366 } = .ok d ∧ applyTo d x = .ok res ∧
-      res.t.ordinal = Cal.toOrdinal x.t.y 1 1 + 364 ∧ res.t.ordinal ≠ Cal.toOrdinal x.t.y 1 1 + (366 - 1) := by
-  have hmk : mk { yearday := some 366 } = .ok (mdl 12 32 (-1)) :=
-    mk_yearday 366 12 32 (by decide) (by decide)
-  obtain ⟨res, ha, _, _, hord, _⟩ := applyTo_mdl 12 32 (-1) x hx (by decide) (by decide) (Or.inr rfl)
-  have hd : Cal.daysInMonth x.t.y 12 = 31 := by unfold Cal.daysInMonth; simp
-  have hord' : res.t.ordinal = Cal.toOrdinal x.t.y 1 1 + 364 := by
-    rw [hord, hd]
-    have e1 : Cal.dbmTable 1 = 0 := by decide
-    have e12 : Cal.dbmTable 12 = 334 := by decide
-    unfold Cal.toOrdinal Cal.daysBeforeMonth
-    rw [e1, e12, hl]
-    simp
-    omega
-  exact ⟨_, res, hmk, ha, hord', by omega⟩
 
 /-! ## Bridge to C08: `tzrange.transitions` runs on this model -/
 
@@ -280,11 +306,12 @@ theorem C08bridge_J (y n secs : Int) (hy1 : 2 ≤ y) (hy2 : y ≤ 9998) (hn1 : 1
   exact ha
 
 /-- **C08bridge_N.** The same for the zero-based POSIX `n` rule (`relativedelta(yearday=n+1, seconds=s)`),
-    `n ∈ 0..364` (n = 365 is the excluded class of D-C03-yearday366). -/
+    `n ∈ 0..364` (n = 365 exists only in leap years and is outside C08's year-independent `ValidRule`; since the
+    repair of D-C03-yearday366 it is December 31 there — `yearday_spec` with y = 366). -/
 theorem C08bridge_N (y n secs : Int) (hy1 : 2 ≤ y) (hy2 : y ≤ 9998) (hn1 : 0 ≤ n) (hn2 : n ≤ 364)
     (hs1 : -86400 * 300 ≤ secs) (hs2 : secs < 86400 * 300) :
     ∃ m dd, TzStr.ydayToMonthDay (n + 1) = .ok (m, dd) ∧
-      (applyTo (rdOfDelta { month := some m, day := some dd, leapdays := (if n + 1 > 59 then -1 else 0),
+      (applyTo (rdOfDelta { month := some m, day := some dd, leapdays := (if 59 < n + 1 ∧ n + 1 < 366 then -1 else 0),
                             seconds := secs }) (jan1 y)).map secondsOf
         = .ok (Posix.ruleOrdinal y (Posix.Rule.N n) * 86400 + secs) := by
   obtain ⟨m, dd, he, ha⟩ := TzStr.apply_N y n secs hy1 hy2 hn1 hn2 hs1 hs2
@@ -294,6 +321,43 @@ theorem C08bridge_N (y n secs : Int) (hy1 : 2 ≤ y) (hy2 : y ≤ 9998) (hn1 : 0
   refine ⟨m, dd, he, ?_⟩
   rw [← C08bridge_applyDelta y _ ⟨by omega, by omega⟩ (by intro v hv; simp only [Option.some.injEq] at hv; omega)]
   exact ha
+
+/-- **C08bridge_N365.** The last zero-based POSIX day, `n = 365`, exists only in leap years.  Since the repair of
+    D-C03-yearday366 `tzstr._delta` builds `relativedelta(yearday=366)` = month 12, day 32, NO leap-day correction, and in
+    every leap year 2..9998 `datetime(y,1,1) +` that delta `+ s` seconds is the POSIX day `n = 365` (December 31) plus `s`
+    — on C08's copy of the `__add__` fragment and (by `C08bridge_applyDelta`) on the C03 model. -/
+theorem C08bridge_N365 (y secs : Int) (hy1 : 2 ≤ y) (hy2 : y ≤ 9998) (hl : Cal.isLeap y = true)
+    (hs1 : -86400 * 300 ≤ secs) (hs2 : secs < 86400 * 300) :
+    TzStr.delta { yday := some 366, time := some secs } false 0 0
+      = .ok { month := some 12, day := some 32, leapdays := 0, seconds := secs } ∧
+    (applyTo (rdOfDelta { month := some 12, day := some 32, leapdays := 0, seconds := secs }) (jan1 y)).map secondsOf
+      = .ok (Posix.ruleOrdinal y (Posix.Rule.N 365) * 86400 + secs) := by
+  have he : TzStr.ydayToMonthDay 366 = .ok (12, 32) := by decide
+  refine ⟨by simp [TzStr.delta, he, bind, Except.bind, pure, Except.pure], ?_⟩
+  rw [← C08bridge_applyDelta y _ ⟨by omega, by omega⟩ (by intro v hv; simp only [Option.some.injEq] at hv; omega)]
+  have hd : Cal.daysInMonth y 12 = 31 := by unfold Cal.daysInMonth; simp
+  have hv : Cal.ValidYMD y 12 31 := ⟨by omega, by omega, by omega, by rw [hd]; omega⟩
+  have mg := TzStr.ordinal_margin y 12 31 hy1 hy2 hv
+  have e1 : Cal.dbmTable 1 = 0 := by decide
+  have e12 : Cal.dbmTable 12 = 334 := by decide
+  have hord : Cal.toOrdinal y 12 31 = Cal.toOrdinal y 1 1 + 365 := by
+    unfold Cal.toOrdinal Cal.daysBeforeMonth
+    rw [e1, e12, hl]; simp; omega
+  unfold TzStr.applyDelta TzStr.baseInstant
+  have h31 : min (31 : Int) 32 = 31 := by decide
+  rw [if_neg (by omega)]
+  simp only [show ((12 : Int) != 0) = true from rfl, show ((32 : Int) != 0) = true from rfl, if_true,
+    show ((0 : Int) != 0) = false from rfl, Bool.false_and, Bool.false_eq_true, if_false, Int.add_zero]
+  rw [if_neg (by omega)]
+  simp only [hd, h31]
+  rw [if_neg (by omega)]
+  have hin : TzStr.inRange (Cal.toOrdinal y 12 31 * 86400 + secs) = true := by
+    unfold TzStr.inRange Cal.maxOrdinal at *
+    simp only [decide_eq_true_eq]; omega
+  rw [if_pos hin]
+  simp only [TzStr.weekdayStep]
+  unfold Posix.ruleOrdinal
+  rw [hord]
 
 /-! ## `_gen` twins: the same statements about the definitions RE-TRANSLATED from /repo on this run
 
@@ -350,13 +414,20 @@ theorem errors_only_out_of_range_gen (d : RD) (x : Temporal) (hd : InDomain d) (
     IndexError). -/
 theorem gen_initKw_eq_mk (kw : Kw) : Gen.initKw kw = mk kw := RDG.initKw_eq kw
 
-/-- **yearday_spec_partial_gen.** `yearday_spec_partial` about the translated constructor and the translated `__add__`. -/
-theorem yearday_spec_partial_gen (y : Int) (x : Temporal) (hx : x.Valid) (h1 : 1 ≤ y) (h2 : y ≤ 365) :
+/-- **yearday_spec_gen.** `yearday_spec` (full strength) about the translated constructor and the translated `__add__`. -/
+theorem yearday_spec_gen (y : Int) (x : Temporal) (hx : x.Valid) (h1 : 1 ≤ y) (h2 : y ≤ Cal.daysInYear x.t.y) :
     ∃ d res, Gen.initKw { yearday := some y } = .ok d ∧ Gen.addDt d x = .ok res ∧
       res.kind = x.kind ∧ res.t.Valid ∧ res.t.y = x.t.y ∧
       res.t.ordinal = Cal.toOrdinal x.t.y 1 1 + (y - 1) ∧
       res.t.hh = x.t.hh ∧ res.t.mm = x.t.mm ∧ res.t.ss = x.t.ss ∧ res.t.us = x.t.us := by
-  simpa only [RDG.initKw_eq, RDG.addDt_eq] using yearday_spec_partial y x hx h1 h2
+  simpa only [RDG.initKw_eq, RDG.addDt_eq] using yearday_spec y x hx h1 h2
+
+/-- **yearday366_nonleap_clips_gen.** -/
+theorem yearday366_nonleap_clips_gen (x : Temporal) (hx : x.Valid) (hl : Cal.isLeap x.t.y = false) :
+    ∃ d res, Gen.initKw { yearday := some 366 } = .ok d ∧ Gen.addDt d x = .ok res ∧
+      res.kind = x.kind ∧ res.t.Valid ∧ res.t.y = x.t.y ∧ res.t.m = 12 ∧ res.t.d = 31 ∧
+      res.t.hh = x.t.hh ∧ res.t.mm = x.t.mm ∧ res.t.ss = x.t.ss ∧ res.t.us = x.t.us := by
+  simpa only [RDG.initKw_eq, RDG.addDt_eq] using yearday366_nonleap_clips x hx hl
 
 /-- **nlyearday_spec_gen.** -/
 theorem nlyearday_spec_gen (n : Int) (x : Temporal) (hx : x.Valid) (h1 : 1 ≤ n) (h2 : n ≤ 365) :
@@ -367,13 +438,6 @@ theorem nlyearday_spec_gen (n : Int) (x : Temporal) (hx : x.Valid) (h1 : 1 ≤ n
       res.t.ordinal = Cal.toOrdinal x.t.y 1 1 + (n - 1) + (if n ≥ 60 ∧ Cal.isLeap x.t.y = true then 1 else 0) ∧
       res.t.hh = x.t.hh ∧ res.t.mm = x.t.mm ∧ res.t.ss = x.t.ss ∧ res.t.us = x.t.us := by
   simpa only [RDG.initKw_eq, RDG.addDt_eq] using nlyearday_spec n x hx h1 h2
-
-/-- **yearday366_defect_gen.** The known finding D-C03-yearday366 is a theorem about the TRANSLATED code:
-    in every leap year the translated constructor and `__add__` give day 365 for `yearday=366`. -/
-theorem yearday366_defect_gen (x : Temporal) (hx : x.Valid) (hl : Cal.isLeap x.t.y = true) :
-    ∃ d res, Gen.initKw { yearday := some 366 } = .ok d ∧ Gen.addDt d x = .ok res ∧
-      res.t.ordinal = Cal.toOrdinal x.t.y 1 1 + 364 ∧ res.t.ordinal ≠ Cal.toOrdinal x.t.y 1 1 + (366 - 1) := by
-  simpa only [RDG.initKw_eq, RDG.addDt_eq] using yearday366_defect x hx hl
 
 -- non-vacuity / sanity
 example : applyTo { months := 1 } ⟨.date, { y := 2000, m := 1, d := 31 }⟩
@@ -390,9 +454,14 @@ example : (mk { nlyearday := some 60 }).bind (fun d => applyTo d ⟨.naive, { y 
 example : TzStr.applyDelta 2024 { month := some 3, day := some 1, weekday := some (6, 2), seconds := 7200 }
     = (applyTo (rdOfDelta { month := some 3, day := some 1, weekday := some (6, 2), seconds := 7200 }) (jan1 2024)).map secondsOf :=
   C08bridge_applyDelta 2024 _ (by decide) (by intro v hv; simp only [Option.some.injEq] at hv; omega)
-/-- the model reproduces the known finding: yearday=366 in leap year 2000 gives Dec 30 -/
+/-- the repaired constructor: yearday=366 in leap year 2000 is Dec 31 (was Dec 30), in 2001 it clips to Dec 31 -/
 theorem yearday366_witness :
     (mk { yearday := some 366 }).bind (fun d => applyTo d ⟨.date, { y := 2000, m := 1, d := 1 }⟩)
+      = .ok ⟨.date, { y := 2000, m := 12, d := 31 }⟩ ∧
+    (mk { yearday := some 366 }).bind (fun d => applyTo d ⟨.naive, { y := 2001, m := 5, d := 9, hh := 7 }⟩)
+      = .ok ⟨.naive, { y := 2001, m := 12, d := 31, hh := 7 }⟩ ∧
+    (mk { yearday := some 365 }).bind (fun d => applyTo d ⟨.date, { y := 2000, m := 1, d := 1 }⟩)
       = .ok ⟨.date, { y := 2000, m := 12, d := 30 }⟩ := by decide +kernel
+example : (1:Int) ≤ 366 ∧ (366:Int) ≤ Cal.daysInYear 2000 := by decide
 
 end C03
